@@ -121,17 +121,26 @@ func CheckC15Genome(c C15Genome, rec *Rec) error {
 
 type C15Org struct {
 	Org OrgSpec `json:"organism"`
+	// Others are encoded after Org and before anything is decoded (a batch, as when several organisms are handed over
+	// at once): the encoded form of one organism is a value of its own
+	Others []OrgSpec `json:"others,omitempty"`
 }
 
-func CheckC15Org(c C15Org, rec *Rec) error {
-	org := c.Org.Build()
-	roundTripClasses(c.Org.Genome, rec)
-	data, err := org.MarshalBinary()
-	if err != nil {
-		return fmt.Errorf("MarshalBinary: %v", err)
-	}
+func genC15Org() *rapid.Generator[C15Org] {
+	og := genOrgSpec()
+	return rapid.Custom(func(t *rapid.T) C15Org {
+		c := C15Org{Org: og.Draw(t, "organism")}
+		n := rapid.IntRange(0, 3).Draw(t, "others")
+		for i := 0; i < n; i++ {
+			c.Others = append(c.Others, og.Draw(t, "other"))
+		}
+		return c
+	})
+}
+
+func compareRestoredOrg(spec OrgSpec, org *genetics.Organism, data []byte) error {
 	var back genetics.Organism
-	if err = back.UnmarshalBinary(data); err != nil {
+	if err := back.UnmarshalBinary(data); err != nil {
 		return fmt.Errorf("UnmarshalBinary: %v", err)
 	}
 	if back.Fitness != org.Fitness || back.Generation != org.Generation {
@@ -140,8 +149,32 @@ func CheckC15Org(c C15Org, rec *Rec) error {
 	if back.Genotype == nil {
 		return fmt.Errorf("restored organism has no genome")
 	}
-	if d := DiffSpec(c.Org.Genome, Snapshot(back.Genotype)); d != "" || back.Genotype.Id != c.Org.Genome.Id {
-		return fmt.Errorf("binary round trip changed the genome (id %d -> %d): %s", c.Org.Genome.Id, back.Genotype.Id, d)
+	if d := DiffSpec(spec.Genome, Snapshot(back.Genotype)); d != "" || back.Genotype.Id != spec.Genome.Id {
+		return fmt.Errorf("binary round trip changed the genome (id %d -> %d): %s", spec.Genome.Id, back.Genotype.Id, d)
+	}
+	return nil
+}
+
+func CheckC15Org(c C15Org, rec *Rec) error {
+	roundTripClasses(c.Org.Genome, rec)
+	specs := append([]OrgSpec{c.Org}, c.Others...)
+	orgs := make([]*genetics.Organism, len(specs))
+	encoded := make([][]byte, len(specs))
+	for i, sp := range specs {
+		orgs[i] = sp.Build()
+		data, err := orgs[i].MarshalBinary()
+		if err != nil {
+			return fmt.Errorf("MarshalBinary: %v", err)
+		}
+		encoded[i] = data
+	}
+	if len(specs) > 1 {
+		rec.Class("several organisms encoded before the first is decoded")
+	}
+	for i := range specs {
+		if err := compareRestoredOrg(specs[i], orgs[i], encoded[i]); err != nil {
+			return fmt.Errorf("organism %d of %d encoded in a row: %v", i, len(specs), err)
+		}
 	}
 	return nil
 }
@@ -428,7 +461,7 @@ func TestC15Genome(t *testing.T) {
 }
 
 func TestC15Org(t *testing.T) {
-	runProp(t, "C15", "organism", 1500, 30000, mapGen(genOrgSpec(), func(o OrgSpec) C15Org { return C15Org{Org: o} }), CheckC15Org)
+	runProp(t, "C15", "organism", 1500, 30000, genC15Org(), CheckC15Org)
 }
 
 func TestC15Pop(t *testing.T) {
